@@ -19,7 +19,7 @@ LEVEL_TEXT = ("Theorem (every scene of the model incl. CPML layers, any number o
               "custom, QuasiUniformGrid) are compared on the implementation through run_fdtd.")
 LEVEL_NOTE = "Placement-time grid resolution (edges, time step from the CFL formula, uniformity detection) is covered by C37 and by the differential runs, not by this theorem."
 TECHNIQUE = "Coq proof (metric factors reduce to 1 by field) + differential runs over grid descriptions"
-GRIDS = [None, "rect_uniform", "rect_custom", "quasi"]
+GRIDS = [None, "rect_uniform", "rect_custom", "quasi", "uniform_shifted", "quasi_shifted"]
 
 
 def gen_cases(ctx):
@@ -32,6 +32,10 @@ def gen_cases(ctx):
             d["opts"]["exact_interpolation"] = bool(i % 2)
         # spacings with digits below 1e-14 m (1.55 um / 34, 1 um / 30): the derived uniform spacing / time step must still be common to all descriptions
         s["spacing"] = [1.55e-6 / 34, 5e-8, 1e-6 / 30][i % 3]
+        # an extra block positioned by partial_real_position (its centre relative to the centre of the domain): the same cells under every
+        # description, wherever the description puts the coordinate origin (corner-origin explicit edges, shifted centres)
+        sp = s["spacing"]
+        s["blocks"] = list(s.get("blocks") or []) + [{"box": [[0, 2], [0, 1], [0, 2]], "eps": 6.0, "name": "ctr", "real_pos": [0.0, (0.5 if s["shape"][1] % 2 == 0 else 0.0) * sp, -sp]}]
         cases.append({"kind": "grids", "spec": s})
     # odd cell counts (the quasi-uniform policy rejects them) with a slab pinned to an absolute physical coordinate: the uniform policy and
     # explicit origin-centred edges must put it on the same cells
